@@ -190,14 +190,20 @@ def c06_with_ref(ch: int, n1: int, n2: int, a0: int, a1: int, b0: int, b1: int) 
     s1 = S(*((a0, a1)[:n1]))
     s2 = S(*((b0, b1)[:n2]))
     t = s1 + "${q0}" + s2
-    q0 = {"type": "text", "name": "q0", "label": "Q0"}
+    # element level: workbook_to_json would send a cell containing '${' through the C lexer
+    from pyxform.question import InputQuestion
+    from pyxform.survey import Survey
+
+    survey = Survey(name="data", id_string="x", title="x")
+    survey.add_child(InputQuestion(name="q0", type="text", label="Q0"))
     if ch == 0:
-        wb = {"survey": [q0, dict(Q, label=t)]}
+        q1 = InputQuestion(name="q1", type="text", label=t)
     elif ch == 1:
-        wb = {"survey": [q0, dict(Q, hint=t)]}
+        q1 = InputQuestion(name="q1", type="text", label="L", hint=t)
     else:
-        wb = {"survey": [q0, {"type": "text", "name": "q1", "label::L1": t}]}
-    survey, _w, _js = build_survey(wb)
+        q1 = InputQuestion(name="q1", type="text", label={"L1": t})
+    survey.add_child(q1)
+    shims.s3_prefill_xpath(survey)
     root = survey.xml()
     if ch == 0:
         el = [e for e in elements(root, "input") if e.getAttribute("ref") == "/data/q1"][0].getElementsByTagName("label")[0]
@@ -229,15 +235,30 @@ specialise(
     "C06",
     "f.with-reference",
     c06_with_ref,
-    {"ch": [0, 1, 2], "n1": [0, 1, 2], "n2": [0, 1, 2]},
+    {"ch": [0, 1, 2], "n1": [0, 1], "n2": [0, 1]},
+    skip_if=lambda fx: fx["n1"] == 0 and fx["n2"] == 0,
     reach_if=lambda fx: fx["n1"] == 1 and fx["n2"] == 1,
     tiers=("quick", "thorough"),
     timeout=600,
     kernel=K,
     shims=("S1", "S2", "S3", "S4", "S5", "S9"),
     symbolic="text segments s1, s2 (lengths n1, n2 <= 2, printable ASCII minus '$' and space) around one ${q0} reference",
-    bounds="channels: inline label, inline hint, itext label; escaped text shorter than 'instance('",
+    bounds="channels: inline label, inline hint, itext label; real Survey/InputQuestion objects built directly (the workbook reader would send a cell containing '${' through the C lexer)",
     weight=150,
+)
+specialise(
+    "C06",
+    "f.with-reference",
+    c06_with_ref,
+    {"ch": [0, 1, 2], "n1": [0, 2], "n2": [0, 2]},
+    reach_if=lambda fx: False,
+    tiers=("thorough",),
+    timeout=2400,
+    kernel=K,
+    shims=("S1", "S2", "S3", "S4", "S5", "S9"),
+    symbolic="text segments s1, s2 (lengths n1, n2 <= 2, printable ASCII minus '$' and space) around one ${q0} reference",
+    bounds="channels: inline label, inline hint, itext label; real Survey/InputQuestion objects built directly (the workbook reader would send a cell containing '${' through the C lexer)",
+    weight=900,
 )
 
 
